@@ -183,7 +183,10 @@ class World:
             if len(self.stack) >= 3:
                 return f
             before = global_snapshot()
-            ctx = Calibration(momentum=step.get("m", 0.9), streamline=step.get("streamline", True), debug=step.get("debug", False))
+            if step.get("same") and self.stack:
+                ctx = self.stack[-1][0]  # the SAME Calibration object entered again before it was left (nested blocks)
+            else:
+                ctx = Calibration(momentum=step.get("m", 0.9), streamline=step.get("streamline", True), debug=step.get("debug", False))
             r = cut(ctx.__enter__)
             if isinstance(r, Raised):
                 f.append((f"enter/raises:{r.type}", r.text))
@@ -348,7 +351,7 @@ class World:
     def outcome(self, trace):
         out = Outcome()
         out.nontrivial = self.exc_exits > 0 and self.forwards_after_exc > 0
-        out.fingerprint = [(s["op"], s.get("exc"), s.get("where"), s.get("n"), s.get("streamline"), s.get("model"), s.get("fn")) for s in trace]
+        out.fingerprint = [(s["op"], s.get("exc"), s.get("where"), s.get("n"), s.get("streamline"), s.get("model"), s.get("fn"), s.get("same")) for s in trace]
         out.klass = [f"op-{k}" for k in set(self.kinds)] + [f"exc-exits{min(self.exc_exits, 3)}"]
         return out
 
@@ -394,6 +397,11 @@ def make_machine(hook):
         @rule(m=st.sampled_from([0.0, 0.5, 0.9]), streamline=st.booleans(), debug=st.sampled_from([False, False, False, True]))
         def enter(self, m, streamline, debug):
             self.do({"op": "enter", "m": m, "streamline": streamline, "debug": debug})
+
+        @precondition(lambda self: 0 < len(self.w.stack) < 3)
+        @rule()
+        def enter_same_again(self):
+            self.do({"op": "enter", "same": True})
 
         @precondition(lambda self: len(self.w.stack) > 0)
         @rule()
@@ -445,7 +453,7 @@ def run_faults(ctx):
                 for n in range(1, maxn + 1):
                     for where in [-1] + list(range(n + 1)):
                         for victim in ("calibrated", "frozen", "unfrozen"):
-                            steps = [{"op": "enter", "m": 0.5, "streamline": streamline} for _ in range(depth)]
+                            steps = [{"op": "enter", "m": 0.5, "streamline": streamline, "same": bool(k and (n + where) % 2)} for k in range(depth)]
                             steps.append({"op": "exit_exc", "exc": exc, "where": where, "n": n})
                             steps += [{"op": "exit"}] * (depth - 1)
                             steps += [{"op": "forward", "model": victim, "seed": n + where + 1}, {"op": "new_module", "seed": where + 1}]
